@@ -304,7 +304,7 @@ def model_checking(bdir, tier):
                        os.path.join(bdir, "mc_mat"), workers=vlib.NCPU, xmx="6g", timeout=2400)
     if mat.violated or "Model checking completed. No error" not in mat.out:
         raise vlib.Infra("DenseMatrix: the design-level model violates one of its own invariants:\n" + mat.out[-3000:])
-    sol = vlib.run_tlc(os.path.join(vlib.SPEC, "DenseMatrix.tla"), os.path.join(vlib.SPEC, "DenseSolve.cfg" if q else "DenseSolve_thorough.cfg"),
+    sol = vlib.run_tlc(os.path.join(vlib.SPEC, "DenseMatrix.tla"), os.path.join(vlib.SPEC, "DenseSolve.cfg"),
                        os.path.join(bdir, "mc_sol"), workers=vlib.NCPU, xmx="4g", timeout=2400)
     if sol.violated or "Model checking completed. No error" not in sol.out:
         raise vlib.Infra("DenseMatrix: the solver lemmas fail on the model itself:\n" + sol.out[-3000:])
@@ -391,7 +391,7 @@ def run(pid, tier):
                     "trace specification itself; executions are distinct as command sequences",
             "exhaustive": False,
             "model_checking": {"matrix_model_distinct_states": mat.distinct, "matrix_model_states_generated": mat.states,
-                               "solver_lemmas_systems": solm.distinct},
+                               "solver_lemmas_states_all_systems_up_to_4x4_built_row_by_row": solm.distinct},
             "exhaustive_short_sequences": {"alphabet": info["alphabet"], "max_length": 3 if tier == "quick" else 4, "executions": fam.get("exhaustive", 0)},
             "column_counts_at_word_boundaries": EDGE_COLS,
             "matrix_operations_validated": st[0],
